@@ -382,8 +382,15 @@ def gen_search(rng, m, vocab, base, simple=False, allow_last=False, allow_filter
                 keep = tuple(keep) + (i + 1,)
         elif not simple and r < p_star + 0.12:
             vals = [v for v in (vocab.values(tn, t.keys[i]) or []) if v != segs[i]]
+            if i == n - 1 and m.is_leaf_type(tn) and rng.random() < 0.5:
+                # extensions of the sibling file types too (ma, mov, abc ...): the alternatives unfold into typed searches of
+                # several types, interleaved in string order
+                for t2 in m.types:
+                    if t2.n == n and t2.name != tn and t2.keys[:-1] == t.keys[:-1] and m.is_leaf_type(t2.name):
+                        vals += [v for v in (vocab.values(t2.name, t2.keys[-1]) or []) if v not in vals and v != segs[i]]
+                feats.add("comma_across_types")
             if vals:
-                k = rng.randint(1, min(2, len(vals)))
+                k = rng.randint(1, min(3 if "comma_across_types" in feats else 2, len(vals)))
                 alts = [segs[i]] + rng.sample(vals, k)
                 if rng.random() < 0.06:
                     alts = alts[:2] + ["*"]      # overlapping alternatives: every finder still yields each result once
